@@ -250,14 +250,136 @@ func edgeFactsX(fn *ssa.Function, atoms ...*Atom) ([]EdgeFact, []disjFact) {
 		}
 		fs, d := blockShortCircuit(b, iff, atoms)
 		out = append(out, fs...)
-		if d != nil {
-			dis = append(dis, *d)
-		}
+		dis = append(dis, d...)
 	}
 	return out, dis
 }
 
-func blockShortCircuit(b *ssa.BasicBlock, iff *ssa.If, atoms []*Atom) ([]EdgeFact, *disjFact) {
+// blit is one literal of a boolean formula: condition c is true (want) or false.
+type blit struct {
+	c    ssa.Value
+	want bool
+}
+
+// boolDNF decomposes a boolean VALUE built from &&, || and ! (go/ssa lowers such an
+// expression to a phi over the blocks of its short-circuit evaluation when it is not itself
+// a branch condition: `ok := a && (b || c)`, `return e != nil && (!x || y)`,
+// `switch { case a && b: }`). It returns the formula in disjunctive normal form twice: the
+// conjunctions of literals under which v is true, and those under which it is false.
+// ok=false when v is not such a value (the caller treats it as one atom).
+func boolDNF(v ssa.Value, depth int) (t, f [][]blit, ok bool) {
+	v, neg := StripNot(v)
+	phi, isPhi := v.(*ssa.Phi)
+	if !isPhi || depth > 2 || len(phi.Edges) < 2 {
+		return nil, nil, false
+	}
+	if bt, isB := phi.Type().Underlying().(*types.Basic); !isB || bt.Kind() != types.Bool {
+		return nil, nil, false
+	}
+	blk := phi.Block()
+	start := blk.Idom()
+	if start == nil {
+		return nil, nil, false
+	}
+	// every path start → blk; the blocks in between are the expression's own (they hold
+	// nothing but the operands), so a path is a conjunction of branch decisions
+	type path struct {
+		lits []blit
+		pred *ssa.BasicBlock
+	}
+	var paths []path
+	bad := false
+	var walk func(b *ssa.BasicBlock, lits []blit, seen map[*ssa.BasicBlock]bool)
+	walk = func(b *ssa.BasicBlock, lits []blit, seen map[*ssa.BasicBlock]bool) {
+		if bad || len(paths) > 16 || seen[b] {
+			bad = true
+			return
+		}
+		seen[b] = true
+		defer delete(seen, b)
+		if len(b.Instrs) == 0 {
+			bad = true
+			return
+		}
+		switch term := b.Instrs[len(b.Instrs)-1].(type) {
+		case *ssa.If:
+			if b.Succs[0] == b.Succs[1] {
+				bad = true
+				return
+			}
+			for i, s := range b.Succs {
+				l2 := append(append([]blit{}, lits...), blit{term.Cond, i == 0})
+				if s == blk {
+					paths = append(paths, path{l2, b})
+				} else if start.Dominates(s) && s != start {
+					walk(s, l2, seen)
+				} else {
+					bad = true
+				}
+			}
+		case *ssa.Jump:
+			s := b.Succs[0]
+			if s == blk {
+				paths = append(paths, path{append([]blit{}, lits...), b})
+			} else if start.Dominates(s) && s != start {
+				walk(s, lits, seen)
+			} else {
+				bad = true
+			}
+		default:
+			bad = true
+		}
+	}
+	walk(start, nil, map[*ssa.BasicBlock]bool{})
+	if bad || len(paths) < 2 {
+		return nil, nil, false
+	}
+	hasConst := false
+	for _, pa := range paths {
+		// the value the phi takes when entered from this predecessor
+		var e ssa.Value
+		for i, pr := range blk.Preds {
+			if pr == pa.pred {
+				e = phi.Edges[i]
+			}
+		}
+		if e == nil {
+			return nil, nil, false
+		}
+		if bv, isC := ConstBool(e); isC {
+			hasConst = true
+			if bv {
+				t = append(t, pa.lits)
+			} else {
+				f = append(f, pa.lits)
+			}
+			continue
+		}
+		if st, sf, okS := boolDNF(e, depth+1); okS {
+			for _, c := range st {
+				t = append(t, append(append([]blit{}, pa.lits...), c...))
+			}
+			for _, c := range sf {
+				f = append(f, append(append([]blit{}, pa.lits...), c...))
+			}
+			continue
+		}
+		t = append(t, append(append([]blit{}, pa.lits...), blit{e, true}))
+		f = append(f, append(append([]blit{}, pa.lits...), blit{e, false}))
+	}
+	if !hasConst || len(t) > 16 || len(f) > 16 {
+		return nil, nil, false // a plain merge of values, not a short-circuit expression
+	}
+	if neg {
+		t, f = f, t
+	}
+	return t, f, true
+}
+
+// blockShortCircuit: the facts the two edges of `if v` assert when v is a short-circuit
+// value: a literal that occurs in every conjunction of the edge's formula is a plain fact;
+// the formula itself is a disjunctive fact with one member per conjunction.
+func blockShortCircuit(b *ssa.BasicBlock, iff *ssa.If, atoms []*Atom) ([]EdgeFact, []disjFact) {
 	var out []EdgeFact
 	cond, neg := StripNot(iff.Cond)
 	if rc := resolveBoundary(cond); rc != cond {
@@ -276,54 +398,76 @@ func blockShortCircuit(b *ssa.BasicBlock, iff *ssa.If, atoms []*Atom) ([]EdgeFac
 			neg = !neg
 		}
 	}
-	parts, and, ok := shortCircuit(cond)
+	t, f, ok := boolDNF(cond, 0)
 	if !ok {
 		return nil, nil
 	}
-	// the edge on which ALL operands are known, and the edge that only gives a disjunction
-	allEdge, disEdge := b.Succs[0], b.Succs[1] // AND: true edge = all true; false edge = some false
-	allVal := true
-	if !and {
-		allEdge, disEdge = b.Succs[1], b.Succs[0] // OR: false edge = all false; true edge = some true
-		allVal = false
-	}
 	if neg {
-		allEdge, disEdge = disEdge, allEdge
+		t, f = f, t
 	}
-	d := disjFact{E: Edge{b, disEdge}}
-	for _, part := range parts {
-		pc, pneg := StripNot(part)
-		if rc := resolveBoundary(pc); rc != pc {
-			c2, n2 := StripNot(rc)
-			pc = c2
-			if n2 {
-				pneg = !pneg
+	var dis []disjFact
+	for side, dnf := range [][][]blit{t, f} {
+		if len(dnf) == 0 {
+			continue
+		}
+		e := Edge{b, b.Succs[side]}
+		d := disjFact{E: e}
+		// per atom: the value it takes in each conjunction (0 = not mentioned)
+		common := make([]int, len(atoms))
+		for ci, conj := range dnf {
+			var members []EdgeFact
+			val := make([]int, len(atoms))
+			for _, l := range conj {
+				pc, pneg := StripNot(l.c)
+				if rc := resolveBoundary(pc); rc != pc {
+					c2, n2 := StripNot(rc)
+					pc = c2
+					if n2 {
+						pneg = !pneg
+					}
+				}
+				for ai, a := range atoms {
+					onT, onF := a.Match(pc)
+					if pneg {
+						onT, onF = onF, onT
+					}
+					w := onT
+					if !l.want {
+						w = onF
+					}
+					if w != 0 {
+						members = append(members, EdgeFact{e, a, w > 0})
+						if val[ai] == 0 {
+							val[ai] = w
+						} else if (val[ai] > 0) != (w > 0) {
+							val[ai] = 2 // contradictory inside one conjunction: ignore
+						}
+					}
+				}
+			}
+			d.Members = append(d.Members, members)
+			for ai := range atoms {
+				v := val[ai]
+				if v == 2 {
+					v = 0
+				}
+				if ci == 0 {
+					common[ai] = v
+				} else if common[ai] != 0 && (v == 0 || (v > 0) != (common[ai] > 0)) {
+					common[ai] = 0
+				}
 			}
 		}
-		var members []EdgeFact
-		for _, a := range atoms {
-			onT, onF := a.Match(pc)
-			if pneg {
-				onT, onF = onF, onT
-			}
-			v := onT
-			if !allVal {
-				v = onF
-			}
-			if v != 0 {
-				out = append(out, EdgeFact{Edge{b, allEdge}, a, v > 0})
-			}
-			w := onF
-			if !allVal {
-				w = onT
-			}
-			if w != 0 {
-				members = append(members, EdgeFact{Edge{b, disEdge}, a, w > 0})
+		for ai, a := range atoms {
+			if common[ai] != 0 {
+				out = append(out, EdgeFact{e, a, common[ai] > 0})
 			}
 		}
-		d.Members = append(d.Members, members)
+		if len(dnf) > 1 {
+			dis = append(dis, d)
+		}
 	}
-	return out, &d
+	return out, dis
 }
 
 // GateResult is the outcome of a gate check.
